@@ -8,6 +8,9 @@
                 `regex` crate), with a witness string when it fails.
   FLOAT-TEXT / INT-TEXT  the text printed for finite floats (`{}` plus `.0` when there is no `.`) and for ints is inside
                 FLOAT_RE / INTEGER_RE as a whole token (DFA inclusion), and the float arm appends `.0`.
+  UNIT-MIX      (MIR dataflow, vlib/units.py) in the parser and the value printer no index into a sequence of chars derives
+                from a byte offset (str::find, len, Match::end) and no str slice bound derives from a count of characters:
+                the reader would otherwise decode a different string as soon as a multi-byte character precedes an escape.
   REGEX-COMPILE every lexer regex constant compiles (so the `.unwrap()` in lazy_static cannot fire).
 Compound values, structs, dict ordering and parse -> equal value are not decided.
 """
@@ -49,6 +52,8 @@ def rx_escape(ch):
 
 
 def run(ctx, res):
+    from .. import units as U
+    U.check(ctx.P, res, "UNIT-MIX", ("parser::", "values::"), 10)
     sh = ctx.shape
     # ---- tables
     esc = S.find_fn(sh, VAL, "escape_string_literal")
